@@ -7,7 +7,7 @@
 use crate::tok::*;
 use core::borrow::Borrow;
 use core::fmt::{Debug, Write};
-use core::hash::Hash;
+use core::hash::{Hash, Hasher};
 use vek::mat::repr_c::{column_major as cm, row_major as rm};
 use vek::vec::repr_c::{Extent2, Extent3, Rgb, Rgba, Uv, Uvw, Vec16, Vec2, Vec3, Vec32, Vec4, Vec64, Vec8};
 
@@ -241,6 +241,101 @@ fn c18_t_intoiter_vec32() { history_then_observe(ids32!(tok_new, Vec32).into_ite
 #[kani::proof]
 #[kani::unwind(67)]
 fn c18_t_intoiter_vec64() { history_then_observe(ids64!(tok_new, Vec64).into_iter(), 64, false) }
+
+/// Arbitrary history of at most `n` pulls over {next, next_back, stop} on an iterator whose element `i`
+/// is `Tok(base + i)`; returns the harness model (front, back) of its live range.
+fn advance<I>(it: &mut I, n: usize, base: u8) -> (usize, usize)
+where
+    I: DoubleEndedIterator<Item = Tok> + ExactSizeIterator,
+{
+    let (mut front, mut back) = (0usize, n);
+    let mut step = 0;
+    while step < n {
+        let op: u8 = kani::any();
+        kani::assume(op < 3);
+        match op {
+            0 => match it.next() {
+                Some(t) => { assert!(t.id as usize == base as usize + front, "next() yields the front element"); take(t); front += 1; }
+                None => { assert!(front == back); }
+            },
+            1 => match it.next_back() {
+                Some(t) => { back -= 1; assert!(t.id as usize == base as usize + back, "next_back() yields the back element"); take(t); }
+                None => { assert!(front == back); }
+            },
+            _ => break,
+        }
+        step += 1;
+    }
+    assert!(it.len() == back - front);
+    (front, back)
+}
+
+/// Two DIFFERENT iterators, each after its own arbitrary pull history: `a == b` must hold exactly when
+/// the remaining live ranges have equal length and pairwise equal payloads; neither `==` nor `hash`
+/// may touch a yielded token of either side (Tok asserts liveness); equal iterators hash equally.
+/// Tokens: a = Tok(0..n) , b = Tok(8..8+n), payloads arbitrary in {0,1} (so equality is common).
+macro_rules! two_iter_body {
+    ($V:ident, $n:expr, [$($i:expr),+]) => {{
+        let va: [u8; $n] = kani::any();
+        let vb: [u8; $n] = kani::any();
+        kani::assume(true $(&& va[$i] < 2 && vb[$i] < 2)+);
+        let mut a = $V::new($(Tok::with($i, va[$i])),+).into_iter();
+        let mut b = $V::new($(Tok::with(8 + $i, vb[$i])),+).into_iter();
+        let (fa, ba) = advance(&mut a, $n, 0);
+        let (fb, bb) = advance(&mut b, $n, 8);
+        // the harness model of "the remaining elements are equal"
+        let mut want = ba - fa == bb - fb;
+        let mut k = 0;
+        while k < $n {
+            if want && fa + k < ba && va[fa + k] != vb[fb + k] { want = false; }
+            k += 1;
+        }
+        let before = observed();
+        let eq_ab = a == b;
+        let eq_ba = b == a;
+        assert!(eq_ab == want, "a == b exactly when the remaining live ranges are equal");
+        assert!(eq_ba == want, "== is symmetric");
+        assert!(observed() - before <= 2 * (ba - fa) as u32, "== compares at most the live elements");
+        let (mut ha, mut hb) = (MixHasher(0), MixHasher(0));
+        let before = observed();
+        a.hash(&mut ha);
+        b.hash(&mut hb);
+        assert!(observed() - before == ((ba - fa) + (bb - fb)) as u32, "hash looks at exactly the live elements of each");
+        if eq_ab { assert!(ha.finish() == hb.finish(), "equal iterators hash equally"); }
+        kani::cover!(want && ba - fa >= 2 && fa != fb, "equal non-empty remainders at different offsets");
+        kani::cover!(want && fa == ba && fb == bb && fa != fb, "both exhausted (at different cursors)");
+        kani::cover!(!want && ba - fa == bb - fb && ba > fa, "same length, different payloads");
+        kani::cover!(!want && ba - fa != bb - fb, "different lengths");
+        kani::cover!(!want && fb >= ba && bb > fb, "b's cursor beyond a's end");
+        drop(a);
+        drop(b);
+        check_drops($n, |id| if id < fa || id >= ba { 0 } else { 1 });
+        let mut id = 0;
+        while id < $n { assert!(drops(8 + id) == if id < fb || id >= bb { 0 } else { 1 }); id += 1; }
+    }};
+}
+/// K: fns=IntoIter::eq,IntoIter::hash,Vec3::into_iter,IntoIter::next,IntoIter::next_back,IntoIter::len,IntoIter::drop
+/// K: inst=two vec3::IntoIter<Tok> | bound=every pair of pull histories (<= 3 pulls each over next/next_back/stop), payloads in {0,1}; unwind 6
+/// K: asserts=a==b iff remaining ranges have equal length and pairwise equal payloads; symmetric; == and hash never touch a yielded token of either iterator; a==b => equal hashes; drop counts exact
+#[kani::proof]
+#[kani::unwind(6)]
+fn c18_q_two_iters_vec3() { two_iter_body!(Vec3, 3, [0, 1, 2]) }
+/// K: fns=IntoIter::eq,IntoIter::hash,Vec4::into_iter,IntoIter::next,IntoIter::next_back,IntoIter::len,IntoIter::drop
+/// K: inst=two vec4::IntoIter<Tok> | bound=every pair of pull histories (<= 4 pulls each over next/next_back/stop), payloads in {0,1}; unwind 7
+/// K: asserts=a==b iff remaining ranges have equal length and pairwise equal payloads; symmetric; == and hash never touch a yielded token of either iterator; a==b => equal hashes; drop counts exact
+#[kani::proof]
+#[kani::unwind(7)]
+fn c18_q_two_iters_vec4() { two_iter_body!(Vec4, 4, [0, 1, 2, 3]) }
+/// K: fns=IntoIter::eq,IntoIter::hash,Rgba::into_iter,IntoIter::next,IntoIter::next_back | inst=two rgba::IntoIter<Tok> | bound=every pair of pull histories (<= 4 pulls each), payloads in {0,1}; unwind 7
+/// K: asserts=a==b iff remaining ranges have equal length and pairwise equal payloads; symmetric; no read of yielded tokens; a==b => equal hashes; drop counts exact
+#[kani::proof]
+#[kani::unwind(7)]
+fn c18_q_two_iters_rgba() { two_iter_body!(Rgba, 4, [0, 1, 2, 3]) }
+/// K: fns=IntoIter::eq,IntoIter::hash,Extent3::into_iter,IntoIter::next,IntoIter::next_back | inst=two extent3::IntoIter<Tok> | bound=every pair of pull histories (<= 3 pulls each), payloads in {0,1}; unwind 6
+/// K: asserts=a==b iff remaining ranges have equal length and pairwise equal payloads; symmetric; no read of yielded tokens; a==b => equal hashes; drop counts exact
+#[kani::proof]
+#[kani::unwind(6)]
+fn c18_q_two_iters_extent3() { two_iter_body!(Extent3, 3, [0, 1, 2]) }
 
 /// Reach an arbitrary (front, back) state by `f` front pulls and `b` back pulls (both symbolic),
 /// then observe through `==`, `hash` and `{:?}`, pull once more from an arbitrary end, then drop.
